@@ -2,6 +2,7 @@ from __future__ import annotations
 
 import logging
 import os.path
+import shlex
 import socket
 import sys
 import time
@@ -320,7 +321,7 @@ class VNCLoggingServerProxy(portforward.ProxyServer, RFBServer):  # type: ignore
     def handle_keyEvent(self, key: int, down: bool) -> None:
         now = time.time()
 
-        rev = REVERSE_MAP.get(key, chr(key))
+        rev = REVERSE_MAP.get(key) or shlex.quote(chr(key))
 
         cmds = ["pause", "%.4f" % (now - self.last_event)]
         self.last_event = now
